@@ -155,11 +155,12 @@ pub fn test_case(ctx: &Ctx, c: &CleanCase, stats: &mut Stats) -> Result<(), Stri
                     {
                         // who else held the same bytes with the other permission?
                         // the known finding's signature: byte-identical content sits (or sat) somewhere else too — at
-                        // another declared target or in a cache entry — so one cache file stands for several files
+                        // another file of the workspace or the cache — so one cache file stands for several files
                         // that may differ in permission
-                        let all_targets = w.model.all_targets();
-                        let twin = before.iter().any(|(u, g)| u != t && g.data == was.data
-                            && (all_targets.contains(u) || u.starts_with(&format!("{}/cache/", engine::RULER_DIR))));
+                        // (any other file: a leaf that a `copy` rule duplicates counts too — an earlier build may already
+                        // have handed this target a byte-identical copy with the other permission, so the state before the
+                        // clean was itself a product of the finding)
+                        let twin = before.iter().any(|(u, g)| u != t && g.data == was.data);
                         if twin && ctx.open_finding(KF_EXEC).is_some()
                         {
                             stats.known(KF_EXEC);
